@@ -1,2 +1,60 @@
-(* PropC07.v — C07: parsing follows the documented grammar. (theorems to come) *)
-Require Import Calc.Base Calc.Ast Calc.Lexer Calc.Grammar Calc.Printer.
+(* PropC07.v — C07: parsing follows the documented grammar; trees round-trip
+   through source text.
+
+   Proved here, for the grammar model (Grammar.v, compared with parser.Parse on
+   every run) and the documented-rules printer (Printer.v): every expression
+   tree without function literals — any nesting of the 15 binary operators on
+   their 5 levels, the 4 unary operators, both index forms, array literals,
+   calls, parenthesised subtrees, literals and names — written out by the
+   printer is parsed back to the same tree, whatever follows it, provided what
+   follows cannot continue an expression; and wrapping it in redundant
+   parentheses changes nothing.  The statement is at the token level: that the
+   lexer model gives back exactly the printed tokens for the rendered text is
+   checked per tree on every run (code 5 of chk_roundtrip), as is the round
+   trip of statements, blocks and function literals on the real parser.
+   For floats the hypothesis [float_ok] (the literal text converts back to the
+   same float) is decided per tree. *)
+Require Import Calc.Base Calc.Bytecode Calc.Value Calc.FloatText Calc.Ast Calc.Lexer Calc.Grammar Calc.Printer
+        Calc.GrammarProofs.
+Open Scope nat_scope.
+
+Theorem C07_expression_round_trip : forall x rest fuel,
+  wfx x = true -> follow 0 rest -> 5 * hgt x + 5 <= fuel ->
+  p_expr fuel (S_ (pp x) ++ rest) = Got x rest.
+Proof. exact expr_roundtrip. Qed.
+Print Assumptions C07_expression_round_trip.
+
+Theorem C07_redundant_parentheses : forall x rest fuel,
+  wfx x = true -> follow 0 rest -> 5 * hgt x + 10 <= fuel ->
+  p_expr fuel (S_ ([tNs "("] ++ pp x ++ [tNs ")"]) ++ rest) = Got x rest.
+Proof. exact expr_roundtrip_parenthesised. Qed.
+Print Assumptions C07_redundant_parentheses.
+
+(* every operand position: an expression printed for a position that demands
+   binding strength m (parenthesised by the printer when it binds less) is
+   parsed back by the parser of that position *)
+Theorem C07_every_operand_position : forall x m j n rest,
+  wfx x = true -> 1 <= m <= 8 -> 5 * hgt x + 5 <= j ->
+  follow (fl m) rest -> List.length (S_ (pp_at m x) ++ rest) < n ->
+  parser_at j n m (S_ (pp_at m x) ++ rest) = Got x rest.
+Proof.
+  intros x m j n rest W [H1 H8] Hj Hf Hn.
+  destruct (expressions_parse_back (hgt x) x (le_n _) W j) as [_ F].
+  destruct (F Hj) as (Fu & _). apply (Fu m H1 H8); assumption.
+Qed.
+Print Assumptions C07_every_operand_position.
+
+(* string literals: quoting then unwrapping is the identity *)
+Theorem C07_string_literal_round_trip : forall s, no_backslash s = true -> wrap_string (quote s) = s.
+Proof. exact wrap_quote. Qed.
+Print Assumptions C07_string_literal_round_trip.
+
+(* the hypotheses are met: a tree with every level, both index forms, a call and a list *)
+Example C07_nonvacuous :
+  let x := NBin "||" (NBin "<" (NBin "|" (NBin "+" (NBin "*" (NUn "-" (NIndexAt (NName "a") (NInt 1))) (NInt 2)) (NInt 3))
+                                          (NIndexFromTo (NName "s") (NInt 0) (NUn "#" (NName "s"))))
+                               (NCall (NName "f") [NList [NInt 1; NStr "x"]; NBool true]))
+                     (NBin "-" (NInt 1) (NBin "-" (NInt 2) (NInt 3))) in
+  wfx x = true /\ follow 0 [Some tNl] /\
+  p_expr (5 * hgt x + 5) (S_ (pp x) ++ [Some tNl]) = Got x [Some tNl].
+Proof. cbv zeta. split; [vm_compute; reflexivity|]. split; [reflexivity|vm_compute; reflexivity]. Qed.
